@@ -176,7 +176,20 @@ func runC09(c *engine.Case) engine.Result {
 		}
 		bucket = "translated/" + hunkShape(len(hs))
 		if why != "" {
+			// The statement lists this path as not expressible. A translation is tolerated only
+			// if it is right for the RFC (checked above) AND jd itself reads it back as the same
+			// change; otherwise it is the mistranslation the statement forbids.
 			bucket += "/although-" + why
+			back, rerr := jd.ReadPatchString(patch)
+			var after impl.PatchOutcome
+			if rerr == nil {
+				after = impl.Patch(c.A, back)
+			}
+			res.Transitions += 2
+			if rerr != nil || !after.OK || !ref.Equal(after.Val, bV, ref.List) {
+				fail = fmt.Sprintf("a path with a %s was rendered instead of refused, and jd's own reader does not read the patch back as the same change (%v %s)", why, rerr, after.String())
+				return
+			}
 		}
 		if len(hs) == 0 {
 			return
